@@ -186,7 +186,7 @@ section Main
 variable {ι : Type} [Fintype ι] [Nonempty ι]
 
 noncomputable def stOf (p : Params (C+1) D ℝ) (X : ι → Fin D → ℝ) : Stats (C+1) D ℝ :=
-  { n := Nst p X, sumPx := Fst p X, sumPxx := Sst p X, ll := ∑ i, logLik p (X i) }
+  { n := Nst p X, sumPx := Fst p X, sumPxx := Sst p X, ll := ∑ i, logLik p (X i), t := Fintype.card ι }
 
 theorem ml_em_monotone_fin (cfg : MlCfg (C+1) D ℝ) (p : Params (C+1) D ℝ) (X : ι → Fin D → ℝ)
     (hw : ∀ c, 0 < p.weights c) (hsum : ∑ c, p.weights c ≤ 1) (hv : ∀ c d, 0 < p.variances c d)
@@ -250,6 +250,7 @@ theorem eStep_eq_stOf (p : Params (C+1) D ℝ) (xs : List (Fin D → ℝ)) :
   · funext c d; exact (Fin.sum_univ_fun_getElem xs (fun x => Real.exp (lwl p x c - logLik p x) * x d)).symm
   · funext c d; exact (Fin.sum_univ_fun_getElem xs (fun x => Real.exp (lwl p x c - logLik p x) * x d * x d)).symm
   · exact (Fin.sum_univ_fun_getElem xs (logLik p)).symm
+  · simp
 
 /-- C03 (likelihood part): one ML EM iteration never decreases the total (hence average)
 log-likelihood, for every combination of the three update switches, as long as no count
